@@ -105,13 +105,13 @@ type c15World struct {
 }
 
 type c15Trace struct {
-	r       *Run
-	w       *c15World // primary
-	sh      *c15World // shadow: same ops, MaxIterationsPerBlock = unlimited
-	shadowOK bool     // still comparable
-	lines   []string  // replay lines of this trace
-	kinds   []string  // op-kind/outcome sequence (class key)
-	accepted bool
+	r         *Run
+	w         *c15World // primary
+	sh        *c15World // shadow: same ops, MaxIterationsPerBlock = unlimited
+	shadowOK  bool      // still comparable
+	lines     []string  // replay lines of this trace
+	kinds     []string  // op-kind/outcome sequence (class key)
+	accepted  bool
 	lastLocks string
 	// facts about the trace used to name what fails
 	everUnsorted   bool
@@ -359,14 +359,18 @@ func (w *c15World) apply(fl []string, unlimited bool) (class string, err error) 
 		if err := p.ValidateBasic(); err != nil {
 			return "invalid", err
 		}
-		err := f.Try(func(ctx sdk.Context) error { return streamer.HandleTerminateStreamProposal(ctx, f.App.StreamerKeeper, p) })
+		err := f.Try(func(ctx sdk.Context) error {
+			return streamer.HandleTerminateStreamProposal(ctx, f.App.StreamerKeeper, p)
+		})
 		return c15Class(err), err
 	case "replace":
 		p := &streamertypes.ReplaceStreamDistributionProposal{Title: "t", Description: "d", StreamId: uint64(n(1)), Records: c15Recs(fl[2])}
 		if err := p.ValidateBasic(); err != nil {
 			return "invalid", err
 		}
-		err := f.Try(func(ctx sdk.Context) error { return streamer.HandleReplaceStreamDistributionProposal(ctx, f.App.StreamerKeeper, p) })
+		err := f.Try(func(ctx sdk.Context) error {
+			return streamer.HandleReplaceStreamDistributionProposal(ctx, f.App.StreamerKeeper, p)
+		})
 		return c15Class(err), err
 	}
 	panic("unknown op line: " + strings.Join(fl, " "))
@@ -819,15 +823,15 @@ func (t *c15Trace) monitors(fl []string, class string, pre c15Snap, preLocks []l
 // generator
 
 type c15Gen struct {
-	t       *c15Trace
-	g       *Rng
-	nGauges int
-	perp    []int // ids of perpetual gauges (valid stream targets)
-	nonperp []int
+	t        *c15Trace
+	g        *Rng
+	nGauges  int
+	perp     []int // ids of perpetual gauges (valid stream targets)
+	nonperp  []int
 	nStreams int
-	nRoll   int
-	lockIDs []uint64
-	inBlock bool
+	nRoll    int
+	lockIDs  []uint64
+	inBlock  bool
 }
 
 func (x *c15Gen) amount() string {
